@@ -12,6 +12,10 @@ From Virel Require Import Lib.Config Lib.U64 Lib.AMap Model.Emission Model.Ledge
   Proofs.AMapLemmas Proofs.Conservation Proofs.Pointwise Proofs.Staking Proofs.StakedSum.
 Open Scope N_scope.
 Open Scope bool_scope.
+(* History: before the repair d31bf91 of /repo (finding R21) the undo of an unstake that had emptied a fund re-created
+   the fund at the END of the pool's fund list, and the exact statements below were false (the funds of a pool came
+   back in another order).  ApplyStake with reverse now re-inserts the fund at the position it has in the pool record
+   saved under the transaction id; [insert_at_fund_index] is the reason the list is restored exactly. *)
 
 (* ------------------------------------------------------------------------------------------------------------ *)
 (* the delegate table *)
@@ -115,6 +119,76 @@ Proof. destruct d; reflexivity. Qed.
 Lemma acct_eta s : mkacct (bal s) (nonce s) (inc s) (deleg s) = s.
 Proof. destruct s; reflexivity. Qed.
 
+(* ---- funds with distinct owners ---- *)
+Definition fowners (fs : list fund) : list N := map f_owner fs.
+
+Lemma find_fund_none_iff fs o : find_fund fs o = None <-> ~ In o (fowners fs).
+Proof.
+  induction fs as [|g fs IH]; cbn [find_fund fowners map In]; [tauto|].
+  destruct (N.eqb_spec (f_owner g) o) as [E|E].
+  - split; [discriminate|intros H; exfalso; apply H; left; exact E].
+  - rewrite IH. unfold fowners. tauto.
+Qed.
+
+Lemma fowners_upd_some fs o x : f_owner x = o -> fowners (upd_fund fs o (Some x)) = fowners fs.
+Proof.
+  intros Hx. induction fs as [|g fs IH]; cbn [upd_fund fowners map]; [reflexivity|].
+  destruct (N.eqb_spec (f_owner g) o) as [E|E]; cbn [map]; [congruence|]. unfold fowners in IH. rewrite IH. reflexivity.
+Qed.
+
+Lemma In_fowners_upd_none a fs o : In a (fowners (upd_fund fs o None)) -> In a (fowners fs).
+Proof.
+  induction fs as [|g fs IH]; cbn [upd_fund fowners map In]; [tauto|].
+  destruct (f_owner g =? o); [intros H; right; exact H|].
+  cbn [map In]. intros [H|H]; [left; exact H|right; apply IH; exact H].
+Qed.
+
+Lemma NoDup_upd_none fs o : NoDup (fowners fs) -> NoDup (fowners (upd_fund fs o None)).
+Proof.
+  induction fs as [|g fs IH]; cbn [upd_fund fowners map]; intros H; [constructor|].
+  inversion H as [|? ? Hn Hd]; subst. destruct (f_owner g =? o); [exact Hd|].
+  cbn [map]. constructor; [intros Hin; apply Hn; apply (In_fowners_upd_none _ _ o); exact Hin|apply IH; exact Hd].
+Qed.
+
+Lemma find_upd_none fs o : NoDup (fowners fs) -> find_fund (upd_fund fs o None) o = None.
+Proof.
+  induction fs as [|g fs IH]; cbn [upd_fund fowners map]; intros H; [reflexivity|].
+  inversion H as [|? ? Hn Hd]; subst. destruct (N.eqb_spec (f_owner g) o) as [E|E].
+  - apply find_fund_none_iff. rewrite <- E. exact Hn.
+  - cbn [find_fund]. destruct (N.eqb_spec (f_owner g) o); [contradiction|]. apply IH. exact Hd.
+Qed.
+
+Lemma NoDup_app_last {A} (l : list A) a : NoDup l -> ~ In a l -> NoDup (l ++ [a]).
+Proof.
+  induction l as [|x l IH]; cbn [app]; intros Hnd Hn; [constructor; [intros []|constructor]|].
+  inversion Hnd as [|? ? Hx Hd]; subst. constructor.
+  - intros Hin. apply in_app_or in Hin. destruct Hin as [Hin|[<-|[]]]; [contradiction|]. apply Hn. left. reflexivity.
+  - apply IH; [exact Hd|]. intros Hin. apply Hn. right. exact Hin.
+Qed.
+
+(* putting a dropped fund back at the index it had restores the list *)
+Lemma insert_at_fund_index fs o f : find_fund fs o = Some f -> insert_at (fund_index fs o) f (upd_fund fs o None) = fs.
+Proof.
+  induction fs as [|g fs IH]; cbn [find_fund fund_index upd_fund]; [discriminate|].
+  destruct (f_owner g =? o).
+  - intros [= <-]. reflexivity.
+  - intros H. unfold insert_at in *. cbn [firstn skipn app]. rewrite (IH H). reflexivity.
+Qed.
+
+(* the funds of every pool have distinct owners.  Holds in every reachable ledger (Proofs/Undo4.v): ApplyStake and
+   ApplyPosReward append a fund only when the pool has none of that owner *)
+Definition FUniq (l : ledger) : Prop := forall id d, get_dlg l id = Some d -> NoDup (fowners (d_funds d)).
+
+Lemma FUniq_ext l l' : dlgs l' = dlgs l -> FUniq l -> FUniq l'.
+Proof. intros Hd HU id d Hg. apply (HU id d). unfold get_dlg in *. rewrite <- Hd. exact Hg. Qed.
+
+Lemma FUniq_put l0 l d : FUniq l -> dlgs l0 = dlgs l -> NoDup (fowners (d_funds d)) -> FUniq (put_dlg l0 d).
+Proof.
+  intros HU Hd Hf id d' Hg. rewrite get_dlg_put in Hg. destruct (id =? d_id d).
+  - injection Hg as <-. exact Hf.
+  - apply (HU id d'). unfold get_dlg in *. rewrite <- Hd. exact Hg.
+Qed.
+
 (* every fund of every pool is non-empty.  Holds in every reachable ledger: a fund is created by a stake (amount at
    least MIN_STAKE_AMOUNT > 0, check 210 of prevalidate_tx) or by the rounding remainder of a staker reward, which is
    at least 1% of a non-zero reward (the coinbase has no zero staker output), and a fund that reaches 0 is dropped. *)
@@ -185,8 +259,9 @@ Qed.
 
 (* an unstake, then its undo (ApplyStake with reverse = true).  Partial unstake: the fund is still there, the amount
    is added back, the unlock height was not touched.  Full unstake: the fund was dropped and the pool saved in the
-   delegate history under the transaction id; the undo re-creates the fund with the saved unlock height, but AT THE END
-   of the pool's fund list.  [fs''] is the exact resulting list. *)
+   delegate history under the transaction id; the undo re-creates the fund with the saved unlock height at the saved
+   position.  The undo takes the "no fund of the signer" path only when the pool has no second fund of the signer
+   (hypothesis [Huniq], a consequence of FUniq). *)
 Lemma undo_unstake_gen l amt id signer top txid l1 d f :
   SInv l -> amt < two64 ->
   get_dlg l id = Some d -> find_fund (d_funds d) signer = Some f ->
@@ -194,9 +269,7 @@ Lemma undo_unstake_gen l amt id signer top txid l1 d f :
   apply_unstake l amt id signer top txid false 0 = Ok l1 ->
   forall l' top', dlgs l' = dlgs l1 -> staked l' = staked l1 -> nget (dhist l') txid = nget (dhist l1) txid ->
   exists l2, apply_stake cfg l' amt id 0 signer top' txid true = Ok l2 /\
-    dlgs l2 = dins (dlgs l) id (mkdlg (d_id d) (d_owner d) (d_name d)
-                 (if f_amt f =? amt then upd_fund (d_funds d) signer None ++ [f] else d_funds d)) /\
-    staked l2 = staked l /\ accts l2 = accts l' /\ dhist l2 = dhist l'.
+    dlgs l2 = dlgs l /\ staked l2 = staked l /\ accts l2 = accts l' /\ dhist l2 = dhist l'.
 Proof.
   intros HI Ha64 Hg Hf Huniq H l' top' Hd' Hs' Hh'. pose proof HI as (Hsort & Hkey & Hsum & Hs64).
   unfold apply_unstake in H. rewrite Hg in H. cbn [of_opt bind] in H. rewrite Hf in H. cbn [of_opt bind] in H.
@@ -222,16 +295,20 @@ Proof.
                  amt' <- of_opt (safe_add (f_amt f0) amt) 303 ;;
                  Ok (upd_fund (upd_fund (d_funds d) signer (if f_amt f - amt =? 0 then None else Some (mkfund signer (f_amt f - amt) (f_unlock f)))) signer (Some (mkfund signer amt' (f_unlock f0))))
              | None =>
-                 Ok (upd_fund (d_funds d) signer (if f_amt f - amt =? 0 then None else Some (mkfund signer (f_amt f - amt) (f_unlock f))) ++
-                       [mkfund signer amt (match saved_unlock l' txid (d_id d) signer with Some u => u | None => wadd top' (unlock_time cfg) end)])
-             end) = Ok (if f_amt f =? amt then upd_fund (d_funds d) signer None ++ [f] else d_funds d)).
+                 Ok (match saved_fund l' txid (d_id d) signer with
+                     | Some (u, i) => insert_at i (mkfund signer amt u)
+                         (upd_fund (d_funds d) signer (if f_amt f - amt =? 0 then None else Some (mkfund signer (f_amt f - amt) (f_unlock f))))
+                     | None => upd_fund (d_funds d) signer (if f_amt f - amt =? 0 then None else Some (mkfund signer (f_amt f - amt) (f_unlock f))) ++
+                                 [mkfund signer amt (wadd top' (unlock_time cfg))]
+                     end)
+             end) = Ok (d_funds d)).
   { destruct (N.eqb_spec (f_amt f) amt) as [Efull|Epart].
     - (* full *)
       replace (f_amt f - amt) with 0 by lia. cbn [N.eqb]. rewrite (Huniq Efull).
-      assert (Hsaved : saved_unlock l' txid (d_id d) signer = Some (f_unlock f)).
-      { unfold saved_unlock. rewrite Hh'. unfold l0. destruct (N.eqb_spec (f_amt f) amt); [|contradiction].
+      assert (Hsaved : saved_fund l' txid (d_id d) signer = Some (f_unlock f, fund_index (d_funds d) signer)).
+      { unfold saved_fund. rewrite Hh'. unfold l0. destruct (N.eqb_spec (f_amt f) amt); [|contradiction].
         cbn [dhist set_dhist]. rewrite nget_nset_same. rewrite N.eqb_refl, Hf. reflexivity. }
-      rewrite Hsaved. rewrite <- Efull, <- Hown, fund_eta. reflexivity.
+      rewrite Hsaved. rewrite <- Efull, <- Hown, fund_eta, Hown. rewrite (insert_at_fund_index _ _ _ Hf). reflexivity.
     - destruct (N.eqb_spec (f_amt f - amt) 0); [lia|].
       rewrite (find_fund_upd (d_funds d) signer (mkfund signer (f_amt f - amt) (f_unlock f)) eq_refl (ex_intro _ f Hf)).
       cbn [orb guard bind f_amt f_unlock].
@@ -246,34 +323,20 @@ Proof.
   destruct (N.ltb_spec (staked l) (staked l - amt)); [lia|]. cbn [bind].
   eexists. split; [reflexivity|].
   subst d1. cbn [put_dlg set_dlgs set_staked dlgs staked accts dhist d_id d_owner d_name].
-  subst id. rewrite Hd', dins_dins. repeat split.
+  rewrite dlg_eta, Hid, Hd', dins_dins. split; [apply dins_same; assumption|]. repeat split.
 Qed.
 
-(* the condition under which the undo of an unstake is exact on the pool's fund LIST: when the unstake empties the
-   signer's fund, that fund is the last of the list (then re-creating it at the end puts it back in place) *)
-Definition unstake_last_ok (l : ledger) (amt id signer : N) : Prop :=
-  forall d f, get_dlg l id = Some d -> find_fund (d_funds d) signer = Some f -> f_amt f = amt ->
-    exists pre, d_funds d = pre ++ [f] /\ find_fund pre signer = None.
-
 Lemma undo_unstake l amt id signer top txid l1 :
-  SInv l -> amt < two64 -> unstake_last_ok l amt id signer ->
+  SInv l -> FUniq l -> amt < two64 ->
   apply_unstake l amt id signer top txid false 0 = Ok l1 ->
   forall l' top', dlgs l' = dlgs l1 -> staked l' = staked l1 -> nget (dhist l') txid = nget (dhist l1) txid ->
   exists l2, apply_stake cfg l' amt id 0 signer top' txid true = Ok l2 /\
     dlgs l2 = dlgs l /\ staked l2 = staked l /\ accts l2 = accts l' /\ dhist l2 = dhist l'.
 Proof.
-  intros HI Ha64 Hlast H l' top' Hd' Hs' Hh'. pose proof HI as (Hsort & Hkey & _).
-  destruct (unstake_respects_lock _ _ _ _ _ _ _ _ H) as (d & f & Hg & Hf & Hown & _ & _).
-  assert (Huniq : f_amt f = amt -> find_fund (upd_fund (d_funds d) signer None) signer = None).
-  { intros Ea. destruct (Hlast d f Hg Hf Ea) as (pre & -> & Hpre). rewrite upd_fund_app_last; assumption. }
-  destruct (undo_unstake_gen l amt id signer top txid l1 d f HI Ha64 Hg Hf Huniq H l' top' Hd' Hs' Hh')
-    as (l2 & Hr & D & S & A & Hh).
-  exists l2. split; [exact Hr|]. split; [|repeat split; assumption].
-  rewrite D.
-  assert (Hfs : (if f_amt f =? amt then upd_fund (d_funds d) signer None ++ [f] else d_funds d) = d_funds d).
-  { destruct (N.eqb_spec (f_amt f) amt) as [Ea|_]; [|reflexivity].
-    destruct (Hlast d f Hg Hf Ea) as (pre & -> & Hpre). rewrite upd_fund_app_last; [reflexivity|assumption|assumption]. }
-  rewrite Hfs, dlg_eta. apply dins_same; assumption.
+  intros HI HU Ha64 H l' top' Hd' Hs' Hh'.
+  destruct (unstake_respects_lock _ _ _ _ _ _ _ _ H) as (d & f & Hg & Hf & _).
+  exact (undo_unstake_gen l amt id signer top txid l1 d f HI Ha64 Hg Hf
+           ltac:(intros _; apply find_upd_none; exact (HU id d Hg)) H l' top' Hd' Hs' Hh').
 Qed.
 
 End StakeUndo.
@@ -420,15 +483,8 @@ Lemma remove_tx_unfold l t blockhash top_h :
    Ok (put_state l3 signer st2)).
 Proof. reflexivity. Qed.
 
-(* when the transaction is a version-5 unstake that empties the signer's fund, that fund is the last of its pool *)
-Definition unstake_last (l : ledger) (t : tx) : Prop :=
-  match tx_data t with
-  | TUnstake a id => tx_version t = 5 -> unstake_last_ok l a id (addr_of_key (tx_signer t))
-  | _ => True
-  end.
-
 Lemma undo_kind l t st top l1k st1 :
-  SInv l -> FPos l -> wf_tx cfg t -> unstake_last l t ->
+  SInv l -> FPos l -> FUniq l -> wf_tx cfg t ->
   kind_apply l t st top = Ok (l1k, st1) ->
   accts l1k = accts l /\ bal st1 = bal st /\ nonce st1 = nonce st /\ inc st1 = inc st /\
   forall l' top', dlgs l' = dlgs l1k -> staked l' = staked l1k ->
@@ -436,7 +492,7 @@ Lemma undo_kind l t st top l1k st1 :
     exists l2, kind_remove l' t st1 top' = Ok (l2, st) /\
       dlgs l2 = dlgs l /\ staked l2 = staked l /\ accts l2 = accts l' /\ dhist l2 = dhist l'.
 Proof.
-  intros HI HP (_ & Hwd & _) Hlast H. unfold kind_apply in H. unfold kind_remove, unstake_last in *.
+  intros HI HP HU (_ & Hwd & _) H. unfold kind_apply in H. unfold kind_remove in *.
   assert (Htriv : forall l' : ledger, dlgs l' = dlgs l -> staked l' = staked l ->
             exists l2, Ok (l', st) = Ok (l2, st) /\ dlgs l2 = dlgs l /\ staked l2 = staked l /\ accts l2 = accts l' /\ dhist l2 = dhist l').
   { intros l' D S. exists l'. repeat split; assumption. }
@@ -461,11 +517,11 @@ Proof.
     intros l' top' D S _. rewrite G0. cbn [guard bind].
     destruct (undo_stake cfg l a id pu _ top (tx_id t) _ HI HP Hwd E l' top' D S) as (l2 & Hr & R).
     rewrite Hr. cbn [bind]. exists l2. split; [reflexivity|exact R].
-  - destruct (N.eqb_spec (tx_version t) 5) as [Ev|_]; [|injection H as <- <-; repeat split; intros l' top' D S _; apply Htriv; assumption].
+  - destruct (tx_version t =? 5); [|injection H as <- <-; repeat split; intros l' top' D S _; apply Htriv; assumption].
     guard_inv H. guard_inv H. bind_inv H. injection H as <- <-.
     split; [eapply accts_apply_unstake; eassumption|]. repeat split.
     intros l' top' D S Hh. rewrite G0. cbn [guard bind].
-    destruct (undo_unstake cfg l a id _ top (tx_id t) _ HI Hwd (Hlast Ev) E l' top' D S Hh) as (l2 & Hr & R).
+    destruct (undo_unstake cfg l a id _ top (tx_id t) _ HI HU Hwd E l' top' D S Hh) as (l2 & Hr & R).
     rewrite Hr. cbn [bind]. exists l2. split; [reflexivity|exact R].
 Qed.
 
@@ -749,10 +805,10 @@ Qed.
 End Gen.
 
 (* ---- the exact instance: the delegate table is restored as a list ---- *)
-Lemma kind_undo_ok_eq l t : SInv l -> FPos l -> wf_tx cfg t -> unstake_last l t -> kind_undo_ok eq l t.
+Lemma kind_undo_ok_eq l t : SInv l -> FPos l -> FUniq l -> wf_tx cfg t -> kind_undo_ok eq l t.
 Proof.
-  intros HI HP Hwf Hlast st top l1k st1 H.
-  destruct (undo_kind cfg l t st top l1k st1 HI HP Hwf Hlast H) as (A & B & C & D & Hk).
+  intros HI HP HU Hwf st top l1k st1 H.
+  destruct (undo_kind cfg l t st top l1k st1 HI HP HU Hwf H) as (A & B & C & D & Hk).
   split; [exact A|]. split; [exact B|]. split; [exact C|]. split; [exact D|].
   intros l' top' Hd Hs Hh. destruct (Hk l' top' (eq_sym Hd) Hs Hh) as (l2 & Hr & D2 & R).
   exists l2. split; [exact Hr|]. split; [symmetry; exact D2|exact R].
@@ -761,29 +817,27 @@ Qed.
 (* RemoveTxFromState is the exact inverse of ApplyTxToState, for every kind of transaction, on accounts, delegate
    table and staked total.  [l'] is any ledger that agrees with the result [l1] of the application. *)
 Theorem undo_tx l t h bh top_h l1 tot :
-  SInv l -> FPos l -> total_bal l < two64 -> wf_tx cfg t -> tx_total cfg t = Some tot ->
+  SInv l -> FPos l -> FUniq l -> total_bal l < two64 -> wf_tx cfg t -> tx_total cfg t = Some tot ->
   (forall a, inc (acct_at l a) + tx_nouts t < two64) ->
   nonce (acct_at l (addr_of_key (tx_signer t))) + 1 < two64 ->
-  unstake_last l t ->
   apply_tx cfg l t h bh top_h = Ok l1 ->
   forall l' top', leqv l1 l' -> nget (dhist l') (tx_id t) = nget (dhist l1) (tx_id t) ->
   exists l2, remove_tx cfg l' t bh top' = Ok l2 /\ leqv l l2 /\ dhist l2 = dhist l'.
 Proof.
-  intros HI HP Hb Hwf Htot Hinc Hnonce Hlast Happ.
-  exact (proj2 (undo_tx_gen eq l t h bh top_h l1 tot (kind_undo_ok_eq l t HI HP Hwf Hlast) Hb Hwf Htot Hinc Hnonce Happ)).
+  intros HI HP HU Hb Hwf Htot Hinc Hnonce Happ.
+  exact (proj2 (undo_tx_gen eq l t h bh top_h l1 tot (kind_undo_ok_eq l t HI HP HU Hwf) Hb Hwf Htot Hinc Hnonce Happ)).
 Qed.
 
 (* the statement in the form of remove_apply_transfer (removal from the very ledger the application produced) *)
 Corollary remove_apply_tx l t h bh top_h l1 tot :
-  SInv l -> FPos l -> total_bal l < two64 -> wf_tx cfg t -> tx_total cfg t = Some tot ->
+  SInv l -> FPos l -> FUniq l -> total_bal l < two64 -> wf_tx cfg t -> tx_total cfg t = Some tot ->
   (forall a, inc (acct_at l a) + tx_nouts t < two64) ->
   nonce (acct_at l (addr_of_key (tx_signer t))) + 1 < two64 ->
-  unstake_last l t ->
   apply_tx cfg l t h bh top_h = Ok l1 ->
   forall top', exists l2, remove_tx cfg l1 t bh top' = Ok l2 /\ same_accounts l2 l /\ dlgs l2 = dlgs l /\ staked l2 = staked l.
 Proof.
-  intros HI HP Hb Hwf Htot Hinc Hnonce Hlast Happ top'.
-  destruct (undo_tx l t h bh top_h l1 tot HI HP Hb Hwf Htot Hinc Hnonce Hlast Happ l1 top' (leqv_refl l1) eq_refl)
+  intros HI HP HU Hb Hwf Htot Hinc Hnonce Happ top'.
+  destruct (undo_tx l t h bh top_h l1 tot HI HP HU Hb Hwf Htot Hinc Hnonce Happ l1 top' (leqv_refl l1) eq_refl)
     as (l2 & Hr & (Hs & _ & Hd & Hst) & _).
   exists l2. split; [exact Hr|]. split; [exact Hs|]. split; [symmetry; exact Hd|exact Hst].
 Qed.
